@@ -1,5 +1,8 @@
 import OsacaVerif.Model.LCD
 import OsacaVerif.Spec.Deps
+import OsacaVerif.Lemmas.Chain
+import OsacaVerif.Lemmas.CritPath
+import OsacaVerif.Props.C03
 /-
   C04 — Critical path is the longest latency-weighted dependency chain.
 
@@ -61,5 +64,254 @@ theorem cp_no_deps (k : List Ins)
   simp only [hpos, if_true, List.mem_map, List.mem_filter] at hc
   obtain ⟨i, ⟨hi, _⟩, rfl⟩ := hc
   exact ⟨i, hi, rfl⟩
+
+/-! ### the oracle `Spec.longestChain` IS the maximum chain length (`Lemmas/Chain.lean`)
+
+  A chain (`Spec.Chain`) is a start line plus the list of edges followed; it is genuine
+  (`Chain.Valid infos es`) when it starts at an instruction, every edge belongs to `es` and leads to
+  an instruction, and consecutive edges are linked.  Its length (`Chain.len`) is what the property
+  says: `lat i` for a single instruction, `loadStage i₁ + Σ w + lat iₙ` otherwise.
+  Hypotheses: distinct line numbers, and `FwdIn infos es` — every edge between two instructions
+  points forward in the order of `infos` (decidable; implied by increasing lines and `src < dst`,
+  `fwdIn_of_sorted`). -/
+
+/-- **`longestChain_ge_chain`**: the dynamic programme dominates the length of EVERY genuine chain
+    (∀ instruction lists with distinct lines, ∀ forward edge lists, ∀ chains) -/
+theorem longestChain_ge_chain (infos : List LatInfo) (es : List WEdge)
+    (hnd : (infos.map (·.line)).Nodup) (hfwd : FwdIn infos es) (c : Chain) (hv : c.Valid infos es) :
+    c.len infos ≤ longestChain infos es :=
+  longestChain_ge infos es hnd hfwd c hv
+
+/-- **`longestChain_is_max`**: the value of the dynamic programme is attained by a genuine chain and
+    dominates all of them — it is the maximum chain length (0 for the empty kernel) -/
+theorem longestChain_is_max (infos : List LatInfo) (es : List WEdge)
+    (hnd : (infos.map (·.line)).Nodup) (hfwd : FwdIn infos es) (hne : infos ≠ []) :
+    (∃ c : Chain, c.Valid infos es ∧ c.len infos = longestChain infos es) ∧
+    (∀ c : Chain, c.Valid infos es → c.len infos ≤ longestChain infos es) :=
+  ⟨longestChain_attained infos es hnd hne, longestChain_ge infos es hnd hfwd⟩
+
+-- non-vacuity: the hypotheses hold of the witness' instruction table and edge list; the chain 1 → 2
+-- is genuine, has length loadStage 4 + weight 3 + latency 0 = 7, and attains the maximum
+example : ([⟨1, 7, 4⟩, ⟨2, 0, 0⟩] : List LatInfo).map (·.line) = [1, 2] ∧
+    FwdIn [⟨1, 7, 4⟩, ⟨2, 0, 0⟩] [⟨1, 2, 3⟩] := by decide +kernel
+example : (Chain.mk 1 [⟨1, 2, 3⟩]).Valid [⟨1, 7, 4⟩, ⟨2, 0, 0⟩] [⟨1, 2, 3⟩] ∧
+    (Chain.mk 1 [⟨1, 2, 3⟩]).len [⟨1, 7, 4⟩, ⟨2, 0, 0⟩] = 7 ∧
+    longestChain [⟨1, 7, 4⟩, ⟨2, 0, 0⟩] [⟨1, 2, 3⟩] = 7 := by decide +kernel
+
+/-! ### what the pinned `get_critical_path` reports, against the chains of the property
+    (`Lemmas/CritPath.lean`)
+
+  `isPath es p`: consecutive nodes of `p` are linked by an edge of `es` (a genuine path);
+  `ForwardEdges es`: the shape `Props.C03.edges_forward` proves for `create`; `instrPart p`: `p`
+  without a leading load node; `chainOf es p`: the dependency chain `p` stands for (its instructions
+  and the path's edge weights); `infosOf k` / `wedgesOf es`: the instruction table and edge list the
+  check hands to the oracle; `NonnegStages k`: `latWoLoad ≤ lat` for instructions with a load node. -/
+
+/-- the total `full_analysis_dict` computes from the per-line `latency_cp` values -/
+def total (c : List (Nat × Rat)) : Rat := (c.map (·.2)).sum
+
+/-- **`cpReport_total_le_chain`** (the code as it is, ∀ kernels, ∀ genuine paths): the chain a path
+    stands for is a genuine chain, and the reported total never exceeds its length as the property
+    defines it (`lat` for one instruction; `loadStage i₁ + Σ w + lat iₙ` otherwise) — the reported
+    total is `Σ w + lat iₙ`, the load stage of the first instruction is lost (defect (a) of D7).
+    Equality holds when the chain is a single instruction or its first instruction has load stage 0. -/
+theorem cpReport_total_le_chain (k : List Ins) (hk : WFKernel k) (hst : NonnegStages k) (es : List Edge)
+    (hfw : ForwardEdges es) (p : List Node) (hne : p ≠ []) (hp : isPath es p = true)
+    (hin : ∀ n ∈ p, n.line ∈ k.map (·.line)) :
+    (chainOf es p).Valid (infosOf k) (wedgesOf es) ∧
+    total (cpReport k es p) ≤ (chainOf es p).len (infosOf k) ∧
+    ((edgesOf es (instrPart p) = [] ∨ stageOf (infosOf k) (headLine (instrPart p)) = 0) →
+      total (cpReport k es p) = (chainOf es p).len (infosOf k)) := by
+  have hnd : (k.map (·.line)).Nodup := nodup_of_sorted _ hk
+  have ht := cpReport_total k hnd es hfw p hne hp hin
+  have hl := chainOf_len k es p hne
+  have h0 := stageOf_infosOf_nonneg k hst (headLine (instrPart p))
+  refine ⟨chainOf_valid k es hfw p hne hp hin, ?_, ?_⟩
+  · unfold total
+    rw [ht, hl]
+    split <;> linarith
+  · intro h
+    unfold total
+    rw [ht, hl]
+    rcases h with h | h
+    · rw [if_pos h]; ring
+    · split <;> linarith
+
+/-- **equality when the path does not start at a load node** (path reading): the reported total is
+    exactly the sum of the edge weights along the path plus the latency of its last instruction -/
+theorem cpReport_total_eq_path (k : List Ins) (hk : WFKernel k) (es : List Edge)
+    (hfw : ForwardEdges es) (p : List Node) (hne : p ≠ []) (hp : isPath es p = true)
+    (hin : ∀ n ∈ p, n.line ∈ k.map (·.line)) (hstart : ∀ a ∈ p.head?, a.load = false) :
+    total (cpReport k es p) = pathW (edgeW es) p + latOfK k (lastLine p) := by
+  have hip : instrPart p = p := by
+    match p, hstart with
+    | [], _ => rfl
+    | [a], _ => rfl
+    | a :: b :: rest, hstart =>
+      have : a.load = false := hstart a (by simp)
+      simp [instrPart, this]
+  have := cpReport_total k (nodup_of_sorted _ hk) es hfw p hne hp hin
+  rw [hip] at this
+  exact this
+
+/-- and when it does start at a load node, exactly the weight of the load edge is missing -/
+theorem cpReport_total_load_start (k : List Ins) (hk : WFKernel k) (es : List Edge)
+    (hfw : ForwardEdges es) (a b : Node) (rest : List Node) (ha : a.load = true)
+    (hp : isPath es (a :: b :: rest) = true) (hin : ∀ n ∈ a :: b :: rest, n.line ∈ k.map (·.line)) :
+    total (cpReport k es (a :: b :: rest)) =
+      pathW (edgeW es) (a :: b :: rest) + latOfK k (lastLine (a :: b :: rest)) - edgeW es a b := by
+  have := cpReport_total k (nodup_of_sorted _ hk) es hfw _ (by simp) hp hin
+  unfold total
+  rw [this]
+  simp only [instrPart, ha, if_true, pathW, lastLine]
+  ring
+
+theorem fwdIn_of_forwardEdges (k : List Ins) (hk : WFKernel k) (es : List Edge) (hfw : ForwardEdges es) :
+    FwdIn (infosOf k) (wedgesOf es) := by
+  apply fwdIn_of_sorted
+  · rw [infosOf_lines]; exact hk
+  · intro we hwe
+    simp only [wedgesOf, List.mem_filterMap] at hwe
+    obtain ⟨e, he, hval⟩ := hwe
+    by_cases h1 : e.src.load = false
+    · by_cases h2 : e.dst.load = false
+      · simp only [h1, h2, Bool.not_false, Bool.and_self, if_true, Option.some.injEq] at hval
+        subst hval
+        rcases (hfw e he).2 with h | h
+        · exact h.2
+        · rw [h1] at h; cases h.1
+      · simp [h2] at hval
+    · simp [h1] at hval
+
+/-- a reported path never exceeds the longest chain -/
+theorem cpReport_le_longest (k : List Ins) (hk : WFKernel k) (hst : NonnegStages k) (es : List Edge)
+    (hfw : ForwardEdges es) (p : List Node) (hne : p ≠ []) (hp : isPath es p = true)
+    (hin : ∀ n ∈ p, n.line ∈ k.map (·.line)) :
+    total (cpReport k es p) ≤ longestChain (infosOf k) (wedgesOf es) := by
+  obtain ⟨hv, hle, _⟩ := cpReport_total_le_chain k hk hst es hfw p hne hp hin
+  refine le_trans hle (longestChain_ge _ _ ?_ (fwdIn_of_forwardEdges k hk es hfw) _ hv)
+  rw [infosOf_lines]; exact nodup_of_sorted _ hk
+
+/-- every path enumerated by `allPaths` is a genuine path from its start node; its other nodes are
+    targets of edges -/
+theorem allPaths_spec (es : List Edge) : ∀ (fuel : Nat) (n : Node) (p : List Node) (s : Rat),
+    (p, s) ∈ allPaths es fuel n →
+      p.head? = some n ∧ isPath es p = true ∧ ∀ m ∈ p, m = n ∨ ∃ e ∈ es, e.dst = m := by
+  intro fuel
+  induction fuel with
+  | zero =>
+    intro n p s h
+    simp only [allPaths, List.mem_singleton, Prod.mk.injEq] at h
+    obtain ⟨rfl, _⟩ := h
+    simp [isPath]
+  | succ fuel ih =>
+    intro n p s h
+    simp only [allPaths, List.mem_cons, Prod.mk.injEq, List.mem_flatMap, List.mem_map] at h
+    rcases h with ⟨rfl, _⟩ | ⟨⟨m, w⟩, hmw, ⟨p', s'⟩, hp', hpe, _⟩
+    · simp [isPath]
+    · simp only at hpe hp'
+      subst hpe
+      simp only [succsN, List.mem_filterMap] at hmw
+      obtain ⟨e, he, hval⟩ := hmw
+      by_cases hsrc : e.src = n
+      · simp only [hsrc, beq_self_eq_true, if_true, Option.some.injEq, Prod.mk.injEq] at hval
+        obtain ⟨hd, _⟩ := hval
+        obtain ⟨hhead, hpath, hnodes⟩ := ih m p' s' hp'
+        cases p' with
+        | nil => simp at hhead
+        | cons m' t =>
+          simp only [List.head?_cons, Option.some.injEq] at hhead
+          subst hhead
+          refine ⟨rfl, ?_, ?_⟩
+          · simp only [isPath, Bool.and_eq_true, List.any_eq_true, beq_iff_eq]
+            exact ⟨⟨e, he, hsrc, hd⟩, hpath⟩
+          · intro x hx
+            rcases List.mem_cons.mp hx with rfl | hx
+            · exact Or.inl rfl
+            · rcases hnodes x hx with rfl | h
+              · exact Or.inr ⟨e, he, hd⟩
+              · exact Or.inr h
+      · have : (e.src == n) = false := by simpa using hsrc
+        simp [this] at hval
+
+theorem nodesOf_line (k : List Ins) (es : List Edge) (n : Node) (h : n ∈ nodesOf k es) :
+    n.line ∈ k.map (·.line) := by
+  simp only [nodesOf, List.mem_flatMap, List.mem_append, List.mem_singleton] at h
+  obtain ⟨i, hi, h | h⟩ := h
+  · split at h
+    · simp only [List.mem_singleton] at h; subst h; exact List.mem_map.mpr ⟨i, hi, rfl⟩
+    · simp at h
+  · subst h; exact List.mem_map.mpr ⟨i, hi, rfl⟩
+
+/-- **`cp_never_overreports`, graph-generic form**: for every forward graph over the kernel's lines,
+    whatever `get_critical_path` returns (any candidate of the model: any edge-heaviest path, or the
+    single slowest instruction) has a total that never exceeds the longest dependency chain. -/
+theorem cpCandidates_le_longest (k : List Ins) (hk : WFKernel k) (hst : NonnegStages k) (es : List Edge)
+    (hfw : ForwardEdges es) (hin : ∀ e ∈ es, e.dst.line ∈ k.map (·.line)) :
+    ∀ c ∈ cpCandidates k es, total c ≤ longestChain (infosOf k) (wedgesOf es) := by
+  intro c hc
+  have hnd : ((infosOf k).map (·.line)).Nodup := by rw [infosOf_lines]; exact nodup_of_sorted _ hk
+  simp only [cpCandidates] at hc
+  split at hc
+  · -- the single slowest instruction
+    simp only [List.mem_map, List.mem_filter] at hc
+    obtain ⟨i, ⟨hi, _⟩, rfl⟩ := hc
+    have hinfo : (⟨i.line, i.lat, loadStageOf i⟩ : LatInfo) ∈ infosOf k :=
+      List.mem_map.mpr ⟨i, hi, rfl⟩
+    have hv := single_valid (infosOf k) (wedgesOf es) _ hinfo
+    have hlen : (Chain.mk i.line []).len (infosOf k) = i.lat := by
+      simp only [Chain.len]
+      exact latOf_eq (infosOf k) hnd _ hinfo
+    have := longestChain_ge _ _ hnd (fwdIn_of_forwardEdges k hk es hfw) _ hv
+    rw [hlen] at this
+    simpa [total] using this
+  · simp only [List.mem_map, List.mem_filter, List.mem_flatMap] at hc
+    obtain ⟨⟨p, s⟩, ⟨⟨n, hn, hps⟩, _⟩, rfl⟩ := hc
+    obtain ⟨hhead, hpath, hnodes⟩ := allPaths_spec es _ n p s hps
+    have hne : p ≠ [] := by intro h; rw [h] at hhead; simp at hhead
+    refine cpReport_le_longest k hk hst es hfw p hne hpath ?_
+    intro m hm
+    rcases hnodes m hm with rfl | ⟨e, he, rfl⟩
+    · exact nodesOf_line k es _ hn
+    · exact hin e he
+
+/-- **`cp_never_overreports`**: on the dependency graph OSACA builds (`create`), for every kernel with
+    increasing line numbers and `latWoLoad ≤ lat`, every possible result of the pinned
+    `get_critical_path` has a total ≤ the longest latency-weighted dependency chain.  Together with
+    `cp_underreports` (strictly smaller on the witness): the defect is one-sided. -/
+theorem cp_never_overreports (isa : Isa) (fd : Bool) (par : Params) (k : List Ins) (hk : WFKernel k)
+    (hst : NonnegStages k) :
+    ∀ c ∈ cpCandidates k (create isa fd par k),
+      total c ≤ longestChain (infosOf k) (wedgesOf (create isa fd par k)) := by
+  apply cpCandidates_le_longest k hk hst
+  · intro e he
+    exact C03.edges_forward isa fd par k hk e he
+  · intro e he
+    obtain ⟨_, b, hb, hbl⟩ := C03.edges_in_kernel isa fd par k hk e he
+    exact List.mem_map.mpr ⟨b, hb, hbl⟩
+
+-- non-vacuity: the witness kernel satisfies every hypothesis; its graph has the genuine path
+-- load(1) → 1 → 2, reported with total 3 < chain length 7 = longest chain
+example : WFKernel witness ∧ NonnegStages witness ∧ ForwardEdges (create .x86 false {} witness) := by
+  decide +kernel
+example :
+    let es := create .x86 false {} witness
+    let p : List Node := [⟨1, true⟩, ⟨1, false⟩, ⟨2, false⟩]
+    isPath es p = true ∧ total (cpReport witness es p) = 3 ∧
+    (chainOf es p).len (infosOf witness) = 7 ∧
+    longestChain (infosOf witness) (wedgesOf es) = 7 := by
+  decide +kernel
+
+-- the equality clause cannot be weakened to "p does not start at a load node": the path 1 → 2 of the
+-- witness starts at the instruction node, is reported with total 3 (= its path weight, as
+-- `cpReport_total_eq_path` says), but the chain 1 → 2 of the property has length 7, because the load
+-- stage of instruction 1 belongs to the chain whether or not the path visits the load node
+example :
+    let es := create .x86 false {} witness
+    let p : List Node := [⟨1, false⟩, ⟨2, false⟩]
+    isPath es p = true ∧ total (cpReport witness es p) = 3 ∧
+    pathW (edgeW es) p + latOfK witness (lastLine p) = 3 ∧
+    (chainOf es p).len (infosOf witness) = 7 := by
+  decide +kernel
 
 end OsacaVerif.Props.C04
